@@ -127,12 +127,12 @@ is representable (`reprNexus`), the writer emits it, and the parser rejects the 
 `scanIdent` turns the residue row `END` into the keyword token (finding `nexus-keyword-row`). -/
 theorem roundtrip_nexus_counterexample :
     Spec.Fmt.reprNexus [([97], [69, 78, 68]), ([98], [69, 78, 86])] = true ∧
-    Nexus.parse ⟨false, false, false, false, false, false⟩ {} (Nexus.write 0 [([97], [69, 78, 68]), ([98], [69, 78, 86])]) = .error := by
+    Nexus.parse ⟨false, false, false, false, false, false, false⟩ {} (Nexus.write 0 [([97], [69, 78, 68]), ([98], [69, 78, 86])]) = .error := by
   decide
 
 /-- with `proposed_fixes/c02-nexus-keyword-rows.diff` the witness round-trips -/
 theorem roundtrip_nexus_patched_witness :
-    Nexus.parse ⟨false, false, false, true, false, false⟩ {} (Nexus.write 0 [([97], [69, 78, 68]), ([98], [69, 78, 86])]) =
+    Nexus.parse ⟨false, false, false, true, false, false, false⟩ {} (Nexus.write 0 [([97], [69, 78, 68]), ([98], [69, 78, 86])]) =
       .ok ⟨0, 3, [([97], [69, 78, 68]), ([98], [69, 78, 86])]⟩ := by
   decide
 
